@@ -20,6 +20,7 @@ import (
 	_ "verifsim/harness/promisex"
 	_ "verifsim/harness/routinex"
 	_ "verifsim/harness/csyncx"
+	_ "verifsim/harness/keyedx"
 	"verifsim/simrt"
 )
 
